@@ -123,13 +123,22 @@ def run(repo: Repo, L: Ledger, tier: str):
     summaries = {}
     for name, m in sorted(allm.items()):
         ex = SymExec(repo, loop_iters=iters)
-        st, selfv = fresh_state(ovr, frag)
-        q0 = Q(st)
-        args = {m.params()[0]: selfv, **arg_syms(m, frag)}
-        finals = ex.run_function(m, st, args)
+        finals = []
+        for consts in _const_param_valuations(repo, m):
+            st, selfv = fresh_state(ovr, frag)
+            q0 = Q(st)
+            args = {m.params()[0]: selfv, **arg_syms(m, frag), **{k: Lin.const(v) for k, v in consts.items()}}
+            finals.extend(ex.run_function(m, st, args))
         if not finals:
             raise AnalysisError(f"{m.short}: no completing path")
         summaries[name] = (m, finals, ex)
+        # internal helpers (called only by other methods of the class) may leave the span to their callers:
+        # they are covered through inlining in those callers
+        callers_ = [f for f, c in repo.callers_of(m) if isinstance(c.func, ast.Attribute) and c.func.attr == m.name]
+        internal_only = bool(callers_) and all(f.cls is ovr for f in callers_) and name not in ("discard_start", "discard_end", "trim_fragment", "trim_large_overhangs")
+        if internal_only:
+            L.ok("R1", m.short, "internal helper: invariant checked through its callers (inlined)", m.loc())
+            continue
         bad = None
         for r in finals:
             n_paths += 1
@@ -138,7 +147,7 @@ def run(repo: Repo, L: Ledger, tier: str):
             except NotNumeric:
                 raise AnalysisError(f"{m.short}: span fields are not integer forms on a path")
             if any("?" in str(a) for a in d.t):
-                bad = bad or (r, d, "rows mutated in a way the model cannot account for")
+                raise AnalysisError(f"{m.short}: rows are mutated by an operation outside the list model (no verdict): {[op for op, *_ in r.heap[('self', 'rows')].log if op.endswith('?')]}")
             elif not d.is_zero():
                 bad = bad or (r, d, "span and rows drift apart")
         if bad:
@@ -156,6 +165,8 @@ def run(repo: Repo, L: Ledger, tier: str):
         for r in finals:
             g = r.heap[("self", "rows")]
             for op, i, old, new, node in g.log:
+                if op.endswith("?"):
+                    raise AnalysisError(f"{m.short}: list operation '{op}' outside the model (no verdict)")
                 if op not in ("pop", "store"):
                     bad3 = bad3 or (op, node)
             if not isinstance(r.heap[("self", "rows")], GhostList):
@@ -304,12 +315,11 @@ def _r4(repo, L, ovr, direct):
         ends = set()
         for c in pops:
             i = c.args[0] if c.args else None
-            ends.add(0 if (i is not None and norm(i) == "0") else -1)
+            ends.add("-1" if i is None else norm(i))
         if len(ends) != 1:
-            L.fail("R4", m.short, "pops at both ends in one method; stripping cannot be paired", m.loc())
+            L.fail("R4", m.short, "pops at different ends in one method; stripping cannot be paired", m.loc())
             continue
-        end = ends.pop()
-        idx = "0" if end == 0 else "-1"
+        idx = ends.pop()
         ok, why = True, ""
         for p in paths(m, (0, 1, 2), exc_edges=False):
             if p.status != "return":
@@ -335,7 +345,7 @@ def _r4(repo, L, ovr, direct):
                 ok, why = False, f"gap-stripping test '{norm(t.node)}' has no emptiness guard"
                 break
         L.check(ok, "R4", m.short, f"terminal gaps stripped at index {idx} with emptiness guard on every path", why, m.loc())
-    L.floor("R4", "end-removal methods", n, 2)
+    L.floor("R4", "end-removal methods", n, 1)
 
 
 # ------------------------------------------------------------------------------ R5
@@ -503,3 +513,36 @@ def _ownership(repo, L, ovr):
                 if not defs or not all(_fresh_list(d) for d in defs):
                     bad.append(f"{f.short}: rows={[norm(d)[:50] for d in defs]}")
     L.check(not bad and n_sites > 0, "R3", "OverlapResult:owns-rows", "every overlap result is built from a fresh row list", f"the Scaffold constructor keeps the caller's list ({[norm(n.value)[:60] for n in stores]}) and an overlap result is built from a list it does not own ({bad[:1]}): discard/trim then edit the indexed source scaffold in place while its index goes stale", init.loc(), witness={"history": "bait covering a whole scaffold → lookup → discard_end() → second lookup on the same scaffold"})
+
+
+def _const_param_valuations(repo, m: Func):
+    """Integer parameters that receive only constants at every call site are analysed once per constant
+    (e.g. a helper `discard_terminal_row(idx)` called with 0 and -1)."""
+    from ..fold import try_fold
+    from ..util import arg_for_param
+    import itertools
+
+    params = m.params()[1:]
+    callers = [(f, c) for f, c in repo.callers_of(m) if isinstance(c.func, ast.Attribute) and c.func.attr == m.name]
+    choices = {}
+    for p in params:
+        vals = set()
+        ok = bool(callers)
+        for f, c in callers:
+            try:
+                a = arg_for_param(c, m, p)
+            except AnalysisError:
+                ok = False
+                break
+            v = try_fold(a, default=None) if a is not None else None
+            if isinstance(v, int) and not isinstance(v, bool):
+                vals.add(v)
+            else:
+                ok = False
+                break
+        if ok and vals:
+            choices[p] = sorted(vals)
+    if not choices:
+        return [{}]
+    keys = list(choices)
+    return [dict(zip(keys, combo)) for combo in itertools.product(*[choices[k] for k in keys])]
